@@ -109,6 +109,10 @@ Definition simple_sel (pr : option (list pitem)) (gb : list var) (lim : option N
   | _, _, _ => false
   end.
 
+(* a sub-select that aggregates in the legal shape (Sem.agg_shape: group keys and aggregate aliases projected) and does not cut *)
+Definition agg_sel (pr : option (list pitem)) (gb : list var) (lim : option N) : bool :=
+  agg_shape pr gb && match lim with None => true | Some _ => false end.
+
 (* fragB gv p: gv = the variable of the enclosing GRAPH ?gv, if that is the nearest enclosing graph scope.
    - no sub-select under a variable graph (class C01-subselect-in-graph-var);
    - FILTER / BIND inside GRAPH ?gv do not mention ?gv (such a filter is either not wellscoped or sees a variable
@@ -116,8 +120,8 @@ Definition simple_sel (pr : option (list pitem)) (gb : list var) (lim : option N
    - a nested group does not consist of a single FILTER (never wellscoped: its filter mentions a variable and its group has
      none in scope) nor of a single BIND, except a BIND of constants whose target is not in scope before it (the parser
      flattens such groups into the enclosing group: class C01-bind-target-sibling when the target is bound before);
-   - sub-selects (explicit projection or SELECT star) have no aggregate / GROUP BY / LIMIT (stage 2 of the proof; the other
-     sub-selects are covered by the correspondence check only). *)
+   - sub-selects have no LIMIT and either no aggregate / GROUP BY (explicit projection or SELECT star) or aggregate in the legal
+     shape: group keys and aggregate aliases projected (the other sub-selects are covered by the correspondence check only). *)
 (* a nested group that consists of a single BIND of constants whose target is not in scope before it: the parser flattens
    it into the enclosing group, which is harmless exactly then *)
 Definition lone_bind_ok (e : pat) (pacc : list var) : bool :=
@@ -141,7 +145,7 @@ Fixpoint fragB (gv : option var) (p : pat) {struct p} : bool :=
   | PBind args v => gv_free gv (v :: barg_vars args)
   | PSub s =>
       match s with
-      | Sel _ pr w gb _ lim => (match gv with None => true | Some _ => false end) && simple_sel pr gb lim && fragB None w
+      | Sel _ pr w gb _ lim => (match gv with None => true | Some _ => false end) && (simple_sel pr gb lim || agg_sel pr gb lim) && fragB None w
       end
   end.
 
